@@ -454,12 +454,20 @@ class MarkdownNormalizer(Renderer):
 
         return result
 
+    def _strip_trailing_separator(self, rendered: str) -> str:
+        """Drop separator lines (the bare container prefix) left at the end of a container."""
+        separator = self._second_prefix.rstrip()
+        while separator and rendered.endswith("\n" + separator):
+            rendered = rendered[: -len(separator) - 1]
+        return rendered
+
     def render_quote(self, element: block.Quote) -> str:
         # Reset the skip flag since we're not rendering a blank line
         self._skip_next_blank_line = False
 
         with self.container("> ", "> "):
             result = self.render_children(element).rstrip("\n")
+            result = self._strip_trailing_separator(result)
         self._prefix = self._second_prefix
         # After rendering a quote block, don't suppress the next item break
         # This ensures proper spacing after list items with quote blocks
@@ -545,7 +553,10 @@ class MarkdownNormalizer(Renderer):
             # Don't skip next blank line or suppress item break for hard breaks
             return result
         else:
-            result = f"{self._prefix}{'#' * element.level} {children_content}\n\n"
+            # The separating line after the heading stays inside the enclosing container
+            # (e.g. ">" in a block quote), otherwise it would end the quote.
+            separator = self._second_prefix.rstrip()
+            result = f"{self._prefix}{'#' * element.level} {children_content}\n{separator}\n"
             self._prefix = self._second_prefix
             # Skip the next blank line since we already added one
             self._skip_next_blank_line = True
@@ -786,6 +797,7 @@ class MarkdownNormalizer(Renderer):
 
         with self.container("> ", "> "):
             result = self.render_children(element).rstrip("\n")
+            result = self._strip_trailing_separator(result)
 
         self._prefix = self._second_prefix
         # After rendering an alert block, don't suppress the next item break
